@@ -930,13 +930,13 @@ class Network:
             raise PeerConnectionError(
                 f"indirect connection timed out ({username=}, {ticket=})")
 
-        completed_future = done.pop()
-
-        if completed_future == cannot_connect_future:
+        # Both futures can be done when the peer connects at the moment the
+        # CannotConnect message is received: the established connection wins
+        if expected_connection_future not in done:
             raise PeerConnectionError(
                 f"indirect connection failed ({username=}, {ticket=})")
 
-        return completed_future.result()
+        return expected_connection_future.result()
 
     async def _handle_connect_to_peer(self, message: ConnectToPeer.Response):
         """Handles an indirect connection request received from the server.
